@@ -150,6 +150,49 @@ def apply_op(st, op, step):
         raise ValueError(op)
 
 
+BYTES_VALUES = [b"given;1;2", b"given;1;2;opt", b"opaque-id-without-delimiter", b"0a81f1eb-5d03-44c2-9b58", b"a.x", b"x", b"a;b",
+                b";", b";;", b"a.x;", b"host.example;4294967295;4294967295", b"\xc3\xa9;1;2", b"a b;1;2", b"1", b"0"]
+
+
+def bytes_passthrough(report):
+    """'A Session-Id supplied as bytes is carried unchanged': every value x every way of supplying one."""
+    import bromelia.avps as A
+    from bromelia.lib.etsi_3gpp_s6a import ULR, ULA
+    from bromelia.base import DiameterMessage
+    n = 0
+
+    def ulr(sid):
+        return ULR(session_id=sid, origin_host="a.x", origin_realm="realm", destination_realm="dr",
+                   user_name="u", visited_plmn_id=b"\x01\x02\x03", rat_type=b"\x00\x00\x03\xec", ulr_flags=34)
+    ways = {
+        "SessionIdAVP": lambda v: A.SessionIdAVP(v).data,
+        "AcctMultiSessionIdAVP": lambda v: A.AcctMultiSessionIdAVP(v).data,
+        "typed-request": lambda v: ulr(v).session_id_avp.data,
+        "typed-answer": lambda v: ULA(session_id=v, origin_host="a.x", origin_realm="realm", result_code=b"\x00\x00\x07\xd1").session_id_avp.data,
+        "update-session-id": lambda v: _updated(ulr(b"seed;1;2"), v),
+        "avp-then-dump-load": lambda v: DiameterMessage.load(ulr(v).dump())[0].session_id_avp.data,
+    }
+    for v in BYTES_VALUES:
+        for wname, fn in ways.items():
+            n += 1
+            try:
+                got = fn(v)
+            except BaseException as e:  # noqa
+                report.violation(f"C16:bytes-raises:{wname}", f"{wname}({v!r}) raised {type(e).__name__}: {e}",
+                                 {"bytes_way": wname, "value": v.hex()})
+                continue
+            if got != v:
+                report.violation(f"C16:bytes-altered:{wname}", f"{wname}({v!r}) carries {got!r}",
+                                 {"bytes_way": wname, "value": v.hex()})
+    report.add(evaluations=n, distinct=n)
+    return n
+
+
+def _updated(m, v):
+    m.update_avps({"session_id": v})
+    return m.session_id_avp.data
+
+
 class SidModel:
     def __init__(self, max_msgs=2):
         self.max_msgs = max_msgs
@@ -212,7 +255,12 @@ def _concurrent_scenario():
             import bromelia._internal_utils as IU
             import bromelia.avps as A
             from bromelia.lib.etsi_3gpp_s6a import ULR
-            IU.SessionHandler()          # the module's own initialisation, on the virtual clock
+            if self.params.get("first"):
+                # the very first Session-Ids of the process: the generator is in the state the import left it in
+                for k, v in IMPORT_STATE.items():
+                    setattr(IU.SessionHandler, k, v)
+            else:
+                IU.SessionHandler()          # the module's own initialisation, on the virtual clock
             kinds = self.params["kinds"]
             out = {}
             rt.observations["out"] = out
@@ -253,7 +301,7 @@ def _concurrent_scenario():
             # ids are compared on (high, low): the identity is only a prefix, the pair must not repeat either
             pairs = [tuple(v.split(";")[1:3]) for v in vals]
             if len(set(vals)) != len(vals):
-                errs.append((f"C16:concurrent:duplicate:{'+'.join(kinds)}", f"Session-Ids generated concurrently coincide: {out}"))
+                errs.append((f"C16:concurrent:duplicate:{'+'.join(kinds)}{':first' if self.params.get('first') else ''}", f"Session-Ids generated concurrently coincide: {out}"))
             for i, v in out.items():
                 if GRAMMAR.match(v.encode()) is None:
                     errs.append((f"C16:concurrent:grammar", f"{v!r} is not identity;high;low[;opt]"))
@@ -265,13 +313,28 @@ def _concurrent_scenario():
     return SidCreators
 
 
-CONCURRENT = [(["avp", "avp"], 2), (["avp", "msg"], 2), (["avp", "origin"], 2), (["avp", "avp-b"], 1)]
+IMPORT_STATE = {}
+
+
+def snapshot_import_state():
+    """Class-level state of the generator as the import of the library left it (taken before this process has
+    generated anything)."""
+    import bromelia._internal_utils as IU
+    if not IMPORT_STATE:
+        for k, v in vars(IU.SessionHandler).items():
+            if not k.startswith("__") and (v is None or isinstance(v, (int, float, str, bytes))):
+                IMPORT_STATE[k] = v
+
+
+CONCURRENT = [(["avp", "avp"], 2), (["avp", "msg"], 2), (["avp", "origin"], 2), (["avp", "avp-b"], 1), (["avp", "avp", "first"], 2),
+              (["avp", "msg", "first"], 1)]
 CONCURRENT_THOROUGH = [(["avp", "avp", "avp"], 2), (["msg", "origin"], 2), (["origin", "origin"], 2), (["avp", "avp"], 3)]
 
 
 def _sched_shard(rep, arg):
     from vk.vrt import explore
     params, bound, k, n = arg
+    snapshot_import_state()
     scn = _concurrent_scenario()(**params)
     stats = {"executions": 0, "points": 0}
     if k == 0:
@@ -286,14 +349,18 @@ def _sched_shard(rep, arg):
 
 
 def run(report, tier, seed):
+    snapshot_import_state()      # before this process generates anything (the forked shards inherit it)
     depth = 7 if tier == "quick" else 9
     model = SidModel()
     res = hist.bfs_parallel(model, report, core.jobs(), max_depth=depth, max_states=3000000)
+    bytes_passthrough(report)
     conc = CONCURRENT + (CONCURRENT_THOROUGH if tier == "thorough" else [])
     shards = []
     for kinds, bound in conc:
         n = 4 if bound <= 2 else 16
-        shards += [(dict(kinds=kinds), bound, k, n) for k in range(n)]
+        first = kinds[-1] == "first"
+        kk = kinds[:-1] if first else kinds
+        shards += [(dict(kinds=kk, first=True) if first else dict(kinds=kk), bound, k, n) for k in range(n)]
     core.run_shards(report, _sched_shard, shards, fresh_process=True)
     report.add(evaluations=res["transitions"], distinct=res["states"])
     report.count("max_depth", res["max_depth"])
@@ -308,8 +375,17 @@ def run(report, tier, seed):
 
 
 def replay(w):
+    if "bytes_way" in w:
+        rep = core.Report("C16")
+        global BYTES_VALUES
+        BYTES_VALUES = [bytes.fromhex(w["value"])]
+        bytes_passthrough(rep)
+        for sig in rep.violations:
+            print(sig)
+        return bool(rep.violations)
     if "scenario" in w:
         from vk.vrt import explore
+        snapshot_import_state()
         scn = _concurrent_scenario()(**w["params"])
         rt = explore.execute(scn, {int(i): int(a) for i, a in w["choices"]})
         errs = scn.oracle(rt)
